@@ -5,6 +5,7 @@ import (
 	"fmt"
 	"reflect"
 	"sync"
+	"verifharness/internal/prng"
 
 	nas "github.com/free5gc/nas"
 
@@ -699,6 +700,42 @@ func appendProbeLists(root reflect.Value) (changed bool, spare int) {
 func probeLists(root reflect.Value) bool {
 	ch, _ := appendProbeLists(root)
 	return ch
+}
+
+// fillUnmodelled gives every exported field of *ptr that the reference side does not
+// use (all but the named ones) and that is still zero a non-zero value: numbers 1..40,
+// short strings, true. A converter is a function of the members its specification names;
+// what an application keeps in the other members of the same structure is its own.
+func fillUnmodelled(ptr interface{}, r *prng.Rand, modelled ...string) int {
+	v := reflect.ValueOf(ptr).Elem()
+	n := 0
+	for i := 0; i < v.NumField(); i++ {
+		f := v.Field(i)
+		name := v.Type().Field(i).Name
+		skip := !f.CanSet() || !f.IsZero()
+		for _, m := range modelled {
+			if m == name {
+				skip = true
+			}
+		}
+		if skip {
+			continue
+		}
+		switch f.Kind() {
+		case reflect.Int, reflect.Int8, reflect.Int16, reflect.Int32, reflect.Int64:
+			f.SetInt(int64(r.Range(1, 40)))
+		case reflect.Uint, reflect.Uint8, reflect.Uint16, reflect.Uint32, reflect.Uint64:
+			f.SetUint(uint64(r.Range(1, 40)))
+		case reflect.String:
+			f.SetString([]string{"1", "a", "area-7", "0001"}[r.Intn(4)])
+		case reflect.Bool:
+			f.SetBool(true)
+		default:
+			continue
+		}
+		n++
+	}
+	return n
 }
 
 // capacityIndependent checks "what a parser makes of n octets depends on those n
